@@ -10,6 +10,11 @@ A history is JSON: {'cfg': {'ordered': bool, 'ttl_q': int|None, 'base': int, 'be
   ['C', now_q]                  clock := now, cleanup()
   ['P', mmsi] / ['P', 'mmsi']   pop_track(mmsi) (int or numeric string)
   ['L', n]   ['G', mmsi]        queries n_latest_tracks(n) / get_track(mmsi)
+  ['I', now_q, msg, ts_q|None]  clock := now, tracker.insert_or_update(mmsi, msg_to_track(msg.decode(), ts))   (the public method
+                                below update(): no ordered-stream check, no cleanup(); ordered mode: the generators only hand
+                                it timestamps that are not older than any track -- the caller's obligation on that route)
+  ['T', ttl_q|None]             tracker.ttl_in_seconds = ttl   (a new TTL, in the history's time unit; None = never expire)
+  ['M']                         tracker.stream_is_ordered = False   (only this direction, see Props/C14.v)
 All times are integers in quarter seconds relative to cfg.base (seconds): binary64 arithmetic on them is exact.
 cfg.beh (optional) says what the callbacks do: a list of rules [cb, ev, mmsi|None, 'ExceptionClass'] -- callback cb, called
 for event ev with a track of that MMSI (None: any track), raises that exception; the first matching rule decides; a callback
@@ -28,7 +33,7 @@ sys.path.insert(0, os.path.dirname(os.path.dirname(os.path.abspath(__file__))))
 Q = 4                       # model time unit = 1/Q second
 MON = {'c': 100, 'u': 101, 'd': 102}      # the three monitor callbacks (one per event, registered once)
 MON_OPS = [['A', 'c', 100], ['A', 'u', 101], ['A', 'd', 102]]
-MMSIS = [227006760, 205448890, 786434, 1, 999999999, 366053209]
+MMSIS = [227006760, 205448890, 786434, 1, 999999999, 366053209, 0]       # incl. the smallest (0: falsy) and the largest MMSI
 BASES = [0, 1673259264]
 
 _real_time = _time.time
@@ -99,7 +104,10 @@ class Env:
         if hit is not None:
             return hit
         if 's' in spec:
-            ss = [self.pm.AISSentence(s.encode()) for s in spec['s']]
+            # a sentence with an NMEA tag block in front (\\c:<receiver time>*hh\\!AIVDM...) goes through the factory, as a
+            # reader would produce it: the sentence object then carries the (lazily parsed) tag block
+            ss = [self.pm.NMEASentenceFactory.produce(s.encode()) if s.startswith('\\') else self.pm.AISSentence(s.encode())
+                  for s in spec['s']]
             obj = ss[0] if len(ss) == 1 else self.pm.AISSentence.assemble_from_iterable(ss)
             dec = obj.decode()
             fs = {a.name for a in self.attr.fields(type(dec))}
@@ -153,7 +161,7 @@ def real_message(rng, mmsi, kind=None):
     dims = dict(to_bow=p([0, 1, 511]), to_stern=p([0, 7, 511]), to_port=p([0, 3, 63]), to_starboard=p([0, 2, 63]))
     pos = dict(lon=p([0, -179.5, 12.25, 181]), lat=p([0, -89.5, 53.5, 91]))
     if kind in (1, 2, 3):
-        d = dict(type=kind, speed=p([0, 0.1, 10.5, 102.2]), course=p([0, 0.1, 359.9, 360]), heading=p([0, 1, 359, 511]),
+        d = dict(type=kind, speed=p([0, 0.1, 10.5, 102.2, 102.3]), course=p([0, 0.1, 359.9, 360]), heading=p([0, 1, 359, 511]),
                  turn=p([0, -128, 127, 5]), status=p([0, 1, 5, 15]), **pos)
     elif kind == 4:
         d = dict(type=4, **pos)
@@ -163,7 +171,7 @@ def real_message(rng, mmsi, kind=None):
     elif kind == 9:
         d = dict(type=9, speed=p([0, 1, 1022]), course=p([0, 0.1, 360]), **pos)
     elif kind == 18:
-        d = dict(type=18, speed=p([0, 0.1, 102.2]), course=p([0, 359.9]), heading=p([0, 359, 511]), **pos)
+        d = dict(type=18, speed=p([0, 0.1, 102.2, 102.3]), course=p([0, 359.9]), heading=p([0, 359, 511]), **pos)
     elif kind == 19:
         d = dict(type=19, speed=p([0, 5.5]), course=p([0, 10.0]), heading=p([0, 90]), shipname=p(['', 'B CLASS']),
                  ship_type=p([0, 37]), **pos, **dims)
@@ -182,9 +190,18 @@ def real_message(rng, mmsi, kind=None):
         d = dict(type=14, text=p(['', 'SAFETY']))
     d['mmsi'] = mmsi
     try:
-        return {'s': list(e.pyais.encode_dict(d, talker_id='AIVDM'))}
+        ss = list(e.pyais.encode_dict(d, talker_id='AIVDM'))
     except Exception:
-        return {'s': list(e.pyais.encode_dict(dict(type=1, mmsi=mmsi), talker_id='AIVDM'))}
+        ss = list(e.pyais.encode_dict(dict(type=1, mmsi=mmsi), talker_id='AIVDM'))
+    if len(ss) == 1 and rng.random() < 0.15:
+        # as it comes out of a reader fed by a station that stamps its sentences: a tag block with a receiver time that has
+        # nothing to do with the tracker's clock (last_updated is the clock / the explicit timestamp, never this field)
+        tb = 'c:' + str(rng.choice([1, 5, 1700000000, 1673259264 + 3]))
+        cs = 0
+        for ch in tb:
+            cs ^= ord(ch)
+        ss = ['\\' + tb + '*%02X' % cs + '\\' + ss[0]]
+    return {'s': ss}
 
 
 STUB_VALUES = [0, 0.0, '', False, None, 1, 'X', 2.5, True, -1]
@@ -240,11 +257,11 @@ def run_impl(h):
     cfg = h['cfg']
     base = cfg['base']
     q = cfg.get('q', Q)          # model time unit of this history = 1/q second (4 by default; 4096 for sub-millisecond gaps)
-    ttl_q = cfg['ttl_q']
-    if ttl_q is None:
-        ttl = None
-    else:
-        ttl = ttl_q // q if ttl_q % q == 0 else ttl_q / q
+    def seconds(ttl_q):
+        if ttl_q is None:
+            return None
+        return ttl_q // q if ttl_q % q == 0 else ttl_q / q
+    ttl = seconds(cfg['ttl_q'])
     out = []
     cur = {'events': [], 'deliv': [], 'live': True, 'raised': [], 'raised_obj': None}
     foreign_before = _FOREIGN['n']
@@ -317,6 +334,14 @@ def run_impl(h):
                 elif k == 'G':
                     r = tracker.get_track(op[1])
                     rec['q'] = None if r is None else snap(r)
+                elif k == 'I':
+                    clock.t = float(base) + op[1] / q
+                    dec = e.build(op[2])[0].decode()
+                    tracker.insert_or_update(int(dec.mmsi), e.pt.msg_to_track(dec, None if op[3] is None else float(base) + op[3] / q))
+                elif k == 'T':
+                    tracker.ttl_in_seconds = seconds(op[1])
+                elif k == 'M':
+                    tracker.stream_is_ordered = False
             except Exception as ex:      # noqa: BLE001 - the class name is the observation
                 rec['exn'] = type(ex).__name__
                 rec['from_cb'] = ex is cur['raised_obj']     # the very exception object a callback of the harness raised
@@ -332,6 +357,8 @@ def run_impl(h):
             rec['order'] = order
             rec['tracks'] = [snap(t) for t in tracker.tracks]
             rec['oldest'] = _q(tracker.oldest_timestamp, base, q)
+            # the public configuration attributes, as the tracker shows them after the operation
+            rec['config'] = (_q(tracker.ttl_in_seconds, 0, q), bool(tracker.stream_is_ordered))
             out.append(rec)
     cur['live'] = False
     if out:
@@ -363,6 +390,9 @@ def model_line(h, impl=None):
         if k == 'U':
             _, mmsi, view, _ = e.build(op[2])
             items.append(f"U,{op[1]},{mmsi},{'N' if op[3] is None else op[3]},{_attrs_txt(view)}{osuf}")
+        elif k == 'I':
+            _, mmsi, view, _ = e.build(op[2])
+            items.append(f"I,{op[1]},{mmsi},{'N' if op[3] is None else op[3]},{_attrs_txt(view)}")
         elif k == 'C':
             items.append(f'C,{op[1]}{osuf}')
         elif k in ('P', 'G'):
@@ -371,6 +401,10 @@ def model_line(h, impl=None):
             items.append(f'{k},{op[1]},{op[2]}')
         elif k == 'L':
             items.append(f'L,{op[1]}')
+        elif k == 'T':
+            items.append(f"T,{'N' if op[1] is None else op[1]}")
+        elif k == 'M':
+            items.append('M')
     return (f"trk_run {1 if cfg['ordered'] else 0} {'N' if cfg['ttl_q'] is None else cfg['ttl_q']} {e.nattrs} "
             + ' '.join(items))
 
@@ -400,6 +434,7 @@ def parse_model(reply, h):
                                               for c in f['D'].split(',')]
             out.append({'exn': None if f['E'] == '-' else f['E'], 'calls': calls, 'deliv': deliv,
                         'ret': None if f['R'] == 'N' else _track(f['R']),
+                        'config': (None if f['K'].split('/')[0] == 'N' else int(f['K'].split('/')[0]), f['K'].split('/')[1] == '1'),
                         'oldest': None if f['O'] == 'None' else int(f['O']), 'tracks': _tracks(f['T'])})
     return out
 
@@ -429,6 +464,8 @@ def compare(h, impl, model, with_cache=True):
             return i, 'tracks', b['tracks'], a['tracks']
         if with_cache and a['oldest'] != b['oldest']:
             return i, 'oldest_timestamp', b['oldest'], a['oldest']
+        if a.get('config') != b['config']:
+            return i, 'ttl_in_seconds / stream_is_ordered', b['config'], a.get('config')
         # every callback invocation, in order (the model visits the expired MMSIs in the implementation's set order)
         da = [(cb, ev, tr) for cb, ev, tr in a['deliv']]
         db = [(cb, ev, tr) for cb, ev, tr in b['deliv']]
@@ -449,7 +486,7 @@ def universe(h):
     e = env()
     ms = []
     for op in h['ops']:
-        if op[0] == 'U':
+        if op[0] in ('U', 'I'):
             m = e.build(op[2])[1]
         elif op[0] in ('P', 'G'):
             m = int(op[1])
@@ -462,6 +499,21 @@ def universe(h):
 
 def mode(h):
     return 'ordered' if h['cfg']['ordered'] else 'unordered'
+
+
+def configs(h):
+    """The configuration IN FORCE when each operation starts, as the history prescribes it: [(ttl_q, ordered, mode text)].
+    mode text = 'ordered' | 'unordered' | 'switched-to-unordered' (built ordered, `stream_is_ordered = False` assigned later)."""
+    ttl, ordered, switched = h['cfg']['ttl_q'], h['cfg']['ordered'], False
+    out = []
+    for op in h['ops']:
+        out.append((ttl, ordered, 'ordered' if ordered else ('switched-to-unordered' if switched else 'unordered')))
+        if op[0] == 'T':
+            ttl = op[1]
+        elif op[0] == 'M':
+            switched = switched or ordered
+            ordered = False
+    return out
 
 
 def _plus(xs):
@@ -489,10 +541,17 @@ def oracle_lines(h, impl):
         if k == 'U':
             _, mmsi, view, _ = e.build(op[2])
             sops.append(f"U,{op[1]},{mmsi},{'N' if op[3] is None else op[3]},{_attrs_txt(view)},{_plus(dels)}")
+        elif k == 'I':
+            _, mmsi, view, _ = e.build(op[2])
+            sops.append(f"I,{op[1]},{mmsi},{'N' if op[3] is None else op[3]},{_attrs_txt(view)}")
         elif k == 'C':
             sops.append(f'C,{op[1]},{_plus(dels)}')
         elif k == 'P':
             sops.append(f'P,{int(op[1])}')
+        elif k == 'T':
+            sops.append(f"T,{'N' if op[1] is None else op[1]}")
+        elif k == 'M':
+            sops.append('M')
         else:
             sops.append('O')
     if ms:
@@ -500,27 +559,33 @@ def oracle_lines(h, impl):
         index.append(('spec',))
     trace = []
     prev = []
+    cfgs = configs(h)
+    big = len(ms) > 12          # many vessels: ask the specification only where something can be owed (see below)
     for i, (op, a) in enumerate(zip(h['ops'], impl)):
         k = op[0]
-        if k in ('U', 'C') and a['exn'] is None and cfg['ttl_q'] is not None:
+        if k in ('U', 'C') and a['exn'] is None and cfgs[i][0] is not None:
             rem = [tr[1] for tr in a['tracks']]
             gone = [tr[1] for ev, tr in a['events'] if ev == 'd']
             if all(isinstance(x, int) for x in rem + gone):
-                lines.append(f"trk_ttl {cfg['ttl_q']} {op[1]} {_plus(rem)} {_plus(gone)}")
+                lines.append(f"trk_ttl {cfgs[i][0]} {op[1]} {_plus(rem)} {_plus(gone)}")
                 index.append(('ttl', i))
         if k == 'L' and a['exn'] is None and op[1] >= 0:
             allp = ','.join(f'{tr[0]}/{tr[1]}' for tr in a['tracks']) or '_'
             rp = ','.join(f'{tr[0]}/{tr[1]}' for tr in a['q']) or '_'
             lines.append(f'trk_topn {op[1]} {allp} {rp}')
             index.append(('topn', i))
-        if k in ('U', 'C', 'P'):
+        if k in ('U', 'C', 'P', 'I'):
             trace.extend(f'{ev}~{tr[0]}' for ev, tr in a['events'])
             before = {tr[0] for tr in prev}
             after = {tr[0] for tr in a['tracks']}
-            target = e.build(op[2])[1] if (k == 'U' and accepted(a)) else None
+            target = e.build(op[2])[1] if (k in ('U', 'I') and accepted(a)) else None
             touched = {tr[0] for _, tr in a['events']} | (before ^ after)
-            last = not any(o[0] in ('U', 'C', 'P') for o in h['ops'][i + 1:])
+            last = not any(o[0] in ('U', 'C', 'P', 'I') for o in h['ops'][i + 1:])
             for m in ms:
+                if big and m not in touched and m != target:
+                    # sp_expected_events target m b b = [] for m <> target: nothing is owed to a vessel whose state did
+                    # not change and that got no event (Spec/TrackerSpec.v, by cases); not asked 150 x 150 times
+                    continue
                 lines.append(f"trk_expected {'N' if target is None else target} {m} {int(m in before)} {int(m in after)}")
                 index.append(('expected', i, m))
                 if m in touched or last:       # the automaton state of m can only change where m has events
@@ -536,7 +601,7 @@ def evaluate(h, impl, lines, index, replies):
     e = env()
     cfg = h['cfg']
     ms = universe(h)
-    md = mode(h)
+    cfgs = configs(h)
     bad = []
     ans = dict(zip(index, replies))
     for r in replies:
@@ -545,7 +610,12 @@ def evaluate(h, impl, lines, index, replies):
     # ---- C12
     spec_steps = ans[('spec',)].split('|') if ms else []
     prev_tracks, prev_oldest = [], None
-    escaped_before = False          # an exception raised by a subscriber has left an earlier operation of this history
+    subs, subs_ok = [], True        # the (event, callback) pairs registered at this moment, in registration order
+    mon_all = [tuple(o) for o in h['ops'][:3]] and sorted(tuple(o) for o in h['ops'][:3]) == sorted(tuple(o) for o in MON_OPS)
+    rules = [tuple(r) for r in cfg.get('beh') or []]
+
+    def raises(cb, ev, mmsi):
+        return any(c == cb and e2 == ev and (m is None or m == mmsi) for c, e2, m, x in rules)
     for i, (op, a) in enumerate(zip(h['ops'], impl)):
         k = op[0]
         if k in ('L', 'G'):
@@ -562,9 +632,13 @@ def evaluate(h, impl, lines, index, replies):
         else:
             want, rejected = {}, False
         keys = [tr[0] for tr in a['tracks']]
-        sig = {'entry': {'U': 'update', 'C': 'cleanup', 'P': 'pop_track'}.get(k, 'register_callback'), 'mode': md}
-        refused = k == 'U' and not accepted(a)      # update() raised, and not because a subscriber raised
-        if k == 'U':
+        md = cfgs[i][2]
+        cur_ttl = cfgs[i][0]
+        sig = {'entry': {'U': 'update', 'C': 'cleanup', 'P': 'pop_track', 'T': 'ttl_in_seconds', 'M': 'stream_is_ordered',
+                         'I': 'insert_or_update'}.get(k, 'register_callback'),
+               'mode': md}
+        refused = k in ('U', 'I') and not accepted(a)      # update() raised, and not because a subscriber raised
+        if k in ('U', 'I'):
             if rejected and not refused:
                 bad.append(('C12', i, dict(sig, component='acceptance', kind='wrongly-accepted'),
                             f'step {i}: update older than the track (or out of order) was accepted'))
@@ -603,48 +677,38 @@ def evaluate(h, impl, lines, index, replies):
         # ---- C13
         if k in ('U', 'C') and a['exn'] is None:
             dels = [tr for ev, tr in a['events'] if ev == 'd']
-            if cfg['ttl_q'] is None:
+            if cur_ttl is None:
                 gone = [m for m in {tr[0] for tr in prev_tracks} if m not in keys]
                 if dels or gone:
                     bad.append(('C13', i, dict(sig, component='expiry', kind='expired-without-ttl'),
                                 f'step {i}: ttl None but tracks {sorted(set(gone) | {t[0] for t in dels})} were removed'))
             elif ('ttl', i) in ans:
                 if ans[('ttl', i)] != '1':
-                    T, now = cfg['ttl_q'], op[1]
+                    T, now = cur_ttl, op[1]
                     stale = [tr[0] for tr in a['tracks'] if now - tr[1] >= T]
                     fresh = [tr[0] for tr in dels if now - tr[1] < T]
                     if stale:
-                        # Known finding (findings_tracker.json): after a callback's exception ESCAPED an earlier
-                        # update()/cleanup(), oldest_timestamp may no longer be a lower bound (None, or later than a
-                        # track that is still in the table) and cleanup() returns early.  Only that situation gets the
-                        # signature of the finding; every other surviving expired track is a new violation.
-                        lus = [tr[1] for tr in a['tracks'] if tr[0] in stale]
-                        cache_stale = escaped_before and all(prev_oldest is None or (isinstance(prev_oldest, int) and lu < prev_oldest)
-                                                             for lu in lus)
-                        kind = 'not-expired:oldest_timestamp-not-a-lower-bound-after-callback-exception' if cache_stale else 'not-expired'
-                        bad.append(('C13', i, dict(sig, component='expiry', kind=kind),
+                        bad.append(('C13', i, dict(sig, component='expiry', kind='not-expired'),
                                     f'step {i}: after {sig["entry"]}() at t={now}/4 s with ttl {T}/4 s the tracks {stale} remain '
                                     f'although their age has reached the ttl: '
-                                    + ', '.join(f'{tr[0]}: age {now - tr[1]}/4 s' for tr in a['tracks'] if tr[0] in stale)
-                                    + (f' (oldest_timestamp was {prev_oldest} before the call: an earlier operation was left '
-                                       f'by an exception of a subscriber)' if cache_stale else '')))
+                                    + ', '.join(f'{tr[0]}: age {now - tr[1]}/4 s' for tr in a['tracks'] if tr[0] in stale)))
                     if fresh:
                         bad.append(('C13', i, dict(sig, component='expiry', kind='wrongly-expired'),
                                     f'step {i}: at t={now}/4 s with ttl {T}/4 s expiry removed {fresh} whose age is below the ttl'))
                     if not stale and not fresh:
                         bad.append(('C13', i, dict(sig, component='expiry', kind='spec-disagrees'), f'step {i}: sp_ttl_okb = false'))
                 # a track that vanished without a DELETED event is judged by its last known timestamp
-                T, now = cfg['ttl_q'], op[1]
+                T, now = cur_ttl, op[1]
                 tgt = e.build(op[2])[1] if k == 'U' else None
                 for tr in prev_tracks:
                     if tr[0] not in keys and tr[0] not in {d[0] for d in dels} and tr[0] != tgt and now - tr[1] < T:
                         bad.append(('C13', i, dict(sig, component='expiry', kind='wrongly-expired'),
                                     f'step {i}: track {tr[0]} (age {now - tr[1]}/4 s < ttl {T}/4 s) vanished'))
         # ---- C15
-        if k in ('U', 'C', 'P'):
+        if k in ('U', 'C', 'P', 'I'):
             got = per_mmsi(a['events'])
             for m in ms:
-                exp = ans[('expected', i, m)]
+                exp = ans.get(('expected', i, m), '_')       # not asked: nothing owed (oracle_lines, many vessels)
                 g = ''.join(ev for ev, _ in got.get(m, [])) or '_'
                 if g != exp:
                     bad.append(('C15', i, dict(sig, component='events', kind=f'expected:{exp}:got:{g}'),
@@ -664,12 +728,47 @@ def evaluate(h, impl, lines, index, replies):
             for ev, tr in a['events']:
                 if tr[0] not in ms:
                     bad.append(('C15', i, dict(sig, component='events', kind='foreign-mmsi'), f'step {i}: event for unseen MMSI {tr[0]}'))
+            # To whom (Props/C15.v C15_deliveries): every event of this operation reaches every subscriber that is
+            # registered for it at this moment -- in registration order up to the first one that raises, so a
+            # subscriber behind a raising one is owed nothing -- and no subscriber that was removed (or never
+            # registered).  The events are those the monitors saw (they are registered first, for all three events).
+            # Not judged from the first double registration of a pair on (the property does not say what that means).
+            if subs_ok and mon_all:
+                owed, allowed = [], set(subs)
+                for ev, tr in a['events']:
+                    for e2, cb in subs:
+                        if e2 != ev:
+                            continue
+                        owed.append((cb, ev, tr))
+                        if raises(cb, ev, tr[0]):
+                            break
+                have = list(a['deliv'])
+                for d in owed:
+                    if d in have:
+                        have.remove(d)
+                    else:
+                        bad.append(('C15', i, dict(sig, component='deliveries', kind='registered-subscriber-not-called'),
+                                    f'step {i}: {sig["entry"]} emitted {d[1]} for MMSI {d[2][0]}, but callback {d[0]}, registered for '
+                                    f'"{d[1]}" at that moment (registered, removed and registered again counts as registered), '
+                                    f'was not called'))
+                        break
+                for d in a['deliv']:
+                    if (d[1], d[0]) not in allowed:
+                        bad.append(('C15', i, dict(sig, component='deliveries', kind='removed-subscriber-called'),
+                                    f'step {i}: callback {d[0]} was called for "{d[1]}" (MMSI {d[2][0]}) although it is not registered '
+                                    f'for that event at that moment'))
+                        break
+        if k == 'A':
+            if (op[1], op[2]) in subs:
+                subs_ok = False                   # the same pair twice: from here on the deliveries are not judged
+            subs.append((op[1], op[2]))
+        elif k == 'D' and (op[1], op[2]) in subs:
+            subs.remove((op[1], op[2]))
         prev_tracks, prev_oldest = a['tracks'], a['oldest']
-        if a.get('from_cb') and k in ('U', 'C'):      # Proofs/TrackerCbProofs.v step_ok: pop_track may raise anything
-            escaped_before = True
     # ---- C14
     for i, (op, a) in enumerate(zip(h['ops'], impl)):
         if op[0] == 'L' and op[1] >= 0:
+            md = cfgs[i][2]
             sig = {'entry': 'n_latest_tracks', 'mode': md}
             if a['exn'] is not None:
                 bad.append(('C14', i, dict(sig, component='exception', kind=f'exception:{a["exn"]}'),
@@ -680,7 +779,7 @@ def evaluate(h, impl, lines, index, replies):
                 bad.append(('C14', i, dict(sig, component='selection', kind='not-top-n'),
                             f'step {i}: n_latest_tracks({op[1]}) = {[(t[0], t[1]) for t in a["q"]]} (mmsi, last_updated/4 s) is not '
                             f'min(n, |tracks|) distinct most recently updated tracks of {[(t[0], t[1]) for t in a["tracks"]]}'))
-            elif not cfg['ordered'] and newest != '1':
+            elif not cfgs[i][1] and newest != '1':
                 bad.append(('C14', i, dict(sig, component='order', kind='not-newest-first'),
                             f'step {i}: n_latest_tracks({op[1]}) = {[(t[0], t[1]) for t in a["q"]]} is not sorted newest first'))
     return bad
@@ -692,8 +791,25 @@ def features(h, impl):
     f = set()
     cfg = h['cfg']
     prev = []
-    for op, a in zip(h['ops'], impl):
+    cfgs = configs(h)
+    for i, (op, a) in enumerate(zip(h['ops'], impl)):
         k = op[0]
+        cur_ttl, cur_ordered = cfgs[i][0], cfgs[i][1]
+        if k == 'T':
+            f.add('cfg:ttl-assigned')
+            if op[1] is not None and (cur_ttl is None or op[1] < cur_ttl):
+                f.add('cfg:ttl-shortened')
+                if any(isinstance(tr[1], int) and isinstance(a['oldest'], int) for tr in prev):
+                    f.add('cfg:ttl-shortened-with-tracks')
+        if k == 'M' and cur_ordered:
+            f.add('cfg:switched-to-unordered')
+        if k == 'U' and cfgs[i][2] == 'switched-to-unordered' and accepted(a) and op[3] is not None \
+                and any(isinstance(tr[1], int) and op[3] < tr[1] for tr in prev):
+            f.add('cfg:older-timestamp-accepted-after-switch')
+        if k == 'I':
+            f.add('public:insert_or_update')
+            if cur_ordered:
+                f.add('public:insert_or_update-ordered')
         if k == 'U':
             f.add('update')
             f.add('class:' + env().build(op[2])[3])
@@ -710,10 +826,12 @@ def features(h, impl):
                 f.add('merge')
             if any(ev == 'c' for ev, _ in a['events']) and any(ev == 'd' and tr[0] == m for ev, tr in a['events']):
                 f.add('created-and-expired-at-once')
-        if k in ('U', 'C') and cfg['ttl_q'] is not None and a['exn'] is None:
-            now, T = op[1], cfg['ttl_q']
+        if k in ('U', 'C') and cur_ttl is not None and a['exn'] is None:
+            now, T = op[1], cur_ttl
             if any(ev == 'd' for ev, _ in a['events']):
                 f.add('expiry')
+            if sum(1 for ev, _ in a['events'] if ev == 'd') > 64:
+                f.add('expiry:more-than-64-at-once')
             ages = [now - tr[1] for tr in (prev if k == 'C' else a['tracks'] + [t for e2, t in a['events'] if e2 == 'd'])
                     if isinstance(tr[1], int)]
             if T in ages:
@@ -722,7 +840,7 @@ def features(h, impl):
                 f.add('age==ttl-1')
             if T + 1 in ages:
                 f.add('age==ttl+1')
-            if not cfg['ordered']:
+            if not cur_ordered:
                 # a stale track inserted before a fresher one (the scan order matters)
                 seq = [now - tr[1] >= T for tr in prev if isinstance(tr[1], int)]
                 if True in seq and False in seq:
@@ -743,6 +861,16 @@ def features(h, impl):
             prev = a['tracks']
     if any(op[0] in ('A', 'D') and op[2] < 100 for op in h['ops']):
         f.add('broker-ops')
+    # a pair that was registered, removed and registered again, and an event of its kind afterwards
+    state = {}
+    for op, a in zip(h['ops'], impl):
+        if op[0] == 'A':
+            pr = (op[1], op[2])
+            state[pr] = 're' if state.get(pr) in ('off', 're') else 'on'
+        elif op[0] == 'D' and state.get((op[1], op[2])) in ('on', 're'):
+            state[(op[1], op[2])] = 'off'
+        elif op[0] in ('U', 'C', 'P', 'I') and any(v == 're' and any(ev == pr[0] for ev, _ in a['events']) for pr, v in state.items()):
+            f.add('broker:event-after-re-registration')
     return f
 
 
@@ -761,13 +889,14 @@ def cb_features(h, model):
                 return x
         return None
     subs = []                      # the subscriber list, as register_callback / remove_callback build it
-    for op, b in zip(h['ops'], model):
+    cfgs = configs(h)
+    for i, (op, b) in enumerate(zip(h['ops'], model)):
         k = op[0]
         if k == 'A':
             subs.append((op[1], op[2]))
         elif k == 'D' and (op[1], op[2]) in subs:
             subs.remove((op[1], op[2]))
-        if k not in ('U', 'C', 'P'):
+        if k not in ('U', 'C', 'P', 'I'):
             continue
         raised = [(cb, ev, tr[0], behaviour(cb, ev, tr[0])) for cb, ev, tr in b['deliv'] if behaviour(cb, ev, tr[0])]
         escaped = b['exn'] is not None and bool(b['calls'])        # Props/C15.v C15_exception_origin
@@ -785,7 +914,7 @@ def cb_features(h, model):
             f.add('cb:exception-escaped')
             if k in ('U', 'C') and any(ev == 'd' for _, ev, _, _ in raised):
                 f.add('cb:cleanup-aborted')
-                if cfg['ttl_q'] is not None and any(op[1] - tr[1] >= cfg['ttl_q'] for tr in b['tracks']):
+                if cfgs[i][0] is not None and any(op[1] - tr[1] >= cfgs[i][0] for tr in b['tracks']):
                     f.add('cb:cleanup-aborted-leaving-expired')
         if k in ('U', 'C') and b['exn'] is None and any(ev == 'd' for _, ev, _, _ in raised) \
                 and sum(1 for ev, _ in b['calls'] if ev == 'd') >= 2:
@@ -855,16 +984,12 @@ def check_histories(ctx, prop, hs, queries_only_for=('C14',), sample_every=401, 
                 if key in seen:
                     continue
                 seen.add(key)
-                if 'after-callback-exception' in sig.get('kind', ''):
-                    # the recorded finding: report a few histories per signature, count the rest
-                    rep.count('known-finding:' + sig['kind'] + ':' + sig['entry'] + ':' + sig['mode'])
-                    if rep.dist.get('known-finding:' + sig['kind'] + ':' + sig['entry'] + ':' + sig['mode'], 0) > 3:
-                        continue
                 h2 = h
                 if key not in shrunk and len(shrunk) < 6:
                     shrunk.add(key)
                     h2, step, text = shrink(ctx.model, prop, h, step, sig, text)
-                rep.violation(sig, f'[{mode(h2)}, ttl {h2["cfg"]["ttl_q"]}/4 s] ' + text + ' -- history: ' + short(h2),
+                cf = configs(h2)[step] if 0 <= step < len(h2['ops']) else (h2['cfg']['ttl_q'], h2['cfg']['ordered'], mode(h2))
+                rep.violation(sig, f'[{cf[2]}, ttl {cf[0]}/4 s] ' + text + ' -- history: ' + short(h2),
                               {'history': h2, 'step': step, 'signature': sig})
             if diff is not None:
                 step, comp, mv, iv = diff
@@ -925,6 +1050,10 @@ def short_op(op):
         e = env()
         _, mmsi, _, cls = e.build(op[2])
         return f"t={op[1]}:update({cls}#{mmsi}{'' if op[3] is None else ', ts=' + str(op[3])})"
+    if op[0] == 'I':
+        e = env()
+        _, mmsi, _, cls = e.build(op[2])
+        return f"t={op[1]}:insert_or_update({cls}#{mmsi}{'' if op[3] is None else ', ts=' + str(op[3])})"
     if op[0] == 'C':
         return f't={op[1]}:cleanup()'
     if op[0] == 'P':
@@ -933,6 +1062,10 @@ def short_op(op):
         return f'n_latest_tracks({op[1]})'
     if op[0] == 'G':
         return f'get_track({op[1]!r})'
+    if op[0] == 'T':
+        return f'ttl_in_seconds={op[1]}' + ('' if op[1] is None else '/4 s')
+    if op[0] == 'M':
+        return 'stream_is_ordered=False'
     return f"{'register' if op[0] == 'A' else 'remove'}_callback({op[1]},{op[2]})"
 
 
@@ -964,10 +1097,11 @@ def gen_behaviour(rng, ms):
     return attach, rules
 
 
-def gen_history(rng, kind='mixed', with_queries=False, n_ops=None, raising=False):
+def gen_history(rng, kind='mixed', with_queries=False, n_ops=None, raising=False, config=False):
     """A random history: 1-6 MMSIs, real messages of many classes (plus stubs), explicit / default / equal /
-    out-of-order timestamps, ttl None or small, both modes, ages around the ttl.  raising: some subscribers raise."""
-    ordered = rng.random() < 0.5
+    out-of-order timestamps, ttl None or small, both modes, ages around the ttl.  raising: some subscribers raise.
+    config: the history assigns new TTLs (shorter, longer, None) and may switch an ordered tracker to unordered."""
+    ordered = rng.random() < (0.7 if config else 0.5)
     ttl_q = rng.choice([None, None, 4, 8, 8, 12, 20, 6, 0])
     if kind == 'ttl' and ttl_q is None:
         ttl_q = rng.choice([4, 8, 12])
@@ -987,7 +1121,35 @@ def gen_history(rng, kind='mixed', with_queries=False, n_ops=None, raising=False
     pools = {m: [real_message(rng, m) for _ in range(3)] + [stub_message(rng, m)] for m in ms}
     n_ops = n_ops or rng.choice([4, 8, 12, 20, 30])
     T = ttl_q if ttl_q is not None else 8
+    ordered0, ttl0 = ordered, ttl_q
+    hi = now                       # the latest timestamp this generator has handed to the tracker so far
+    rereg = {}                     # kind 'broker': pairs (ev, cb 10/11) that are registered, removed, registered again ...
+    if kind == 'broker' and rng.random() < 0.5:
+        pair = (rng.choice('cud'), rng.choice([10, 11]))     # right away: registered, removed, registered again
+        ops.extend([['A', pair[0], pair[1]], ['D', pair[0], pair[1]], ['A', pair[0], pair[1]]])
+        rereg[pair] = True
     for _ in range(n_ops):
+        if config and rng.random() < 0.14:
+            if ordered and rng.random() < 0.35:
+                ops.append(['M'])                      # from here on timestamps may go back
+                ordered = False
+                if lus and rng.random() < 0.8:         # ... and one does right away: older than the newest track
+                    fresh = [m for m in ms if m not in lus]
+                    m = rng.choice(fresh) if fresh else min(lus, key=lambda k: lus[k])
+                    ts = max(lus.values()) - rng.choice([1, 2, 4]) if fresh else lus[m]
+                    ops.append(['U', now, rng.choice(pools[m]), ts])
+                    lus[m] = max(ts, lus.get(m, ts))
+                    hi = max(hi, ts)
+            else:
+                new = rng.choice([None, 0, 2, 4, 4, 6, 8, 12, 20, 40, max(T - 4, 1), T + 4])
+                ops.append(['T', new])
+                T = new if new is not None else 8
+                if rng.random() < 0.6:
+                    ops.append(['C', now])             # the same instant under the new TTL
+        if kind == 'broker' and rng.random() < 0.12:
+            pair = (rng.choice('cud'), rng.choice([10, 11]))
+            ops.append(['D' if rereg.get(pair) else 'A', pair[0], pair[1]])
+            rereg[pair] = not rereg.get(pair)
         r = rng.random()
         if r < 0.25:                                   # clock advance, often to an age boundary of some track
             if lus and rng.random() < 0.6:
@@ -1012,12 +1174,22 @@ def gen_history(rng, kind='mixed', with_queries=False, n_ops=None, raising=False
                 ts = rng.choice(list(lus.values())) if lus else now        # equal to some track's timestamp
             elif x < 0.75:
                 ts = (latest if ordered else now) + rng.choice([0, 1, 2, 4])
-            elif x < 0.85:
+            elif x < 0.8:
                 ts = now - T + rng.choice([-1, 0, 1])   # born at the edge of expiry
+            elif x < 0.85:
+                ts = now + rng.choice([1, T - 1, T, T + 1, 2 * T])     # stamped ahead of the clock (a feeder whose clock runs fast)
             else:
                 ts = lus.get(m, now) + rng.choice([-4, -1, 1, 3])
-            ops.append(['U', now, msg, ts])
+            if config and rng.random() < 0.3:
+                # through the public insert_or_update(): no ordered-stream check there, so in ordered mode the caller (this
+                # generator) hands it only timestamps that are not older than anything it has ever stamped
+                if ordered and (now if ts is None else ts) < hi:
+                    ts = hi + rng.choice([0, 0, 1, 2])
+                ops.append(['I', now, msg, ts])
+            else:
+                ops.append(['U', now, msg, ts])
             t_eff = now if ts is None else ts
+            hi = max(hi, t_eff)
             if m not in lus or t_eff >= lus[m]:
                 lus[m] = t_eff
         elif r < 0.74:
@@ -1042,7 +1214,7 @@ def gen_history(rng, kind='mixed', with_queries=False, n_ops=None, raising=False
     if with_queries:
         for n in range(0, len(ms) + 2):
             ops.append(['L', n])
-    cfg = {'ordered': ordered, 'ttl_q': ttl_q, 'base': base}
+    cfg = {'ordered': ordered0, 'ttl_q': ttl0, 'base': base}
     if rules:
         cfg['beh'] = rules
     if rng.random() < 0.2:
@@ -1128,6 +1300,105 @@ def directed_raising(rng):
     return hs
 
 
+def directed_config(rng):
+    """Hand-aimed histories in which the configuration changes: a new TTL (shorter: tracks that were fresh are due at
+    once, also when an earlier cleanup() found nothing due; longer; None; back) and an ordered tracker switched to
+    unordered (an older timestamp, rejected before the switch, is accepted after it and the table is no longer sorted)."""
+    hs = []
+    A, B, C, D = MMSIS[0], MMSIS[1], MMSIS[2], MMSIS[3]
+    for ordered in (False, True):
+        for base in BASES:
+            ra, rb, rc, rd = real_message(rng, A, 1), real_message(rng, B, 5), real_message(rng, C, 18), real_message(rng, D, 27)
+            mk = lambda ops, ttl: {'cfg': {'ordered': ordered, 'ttl_q': ttl, 'base': base}, 'ops': [list(o) for o in MON_OPS] + ops}
+            for early in (True, False):       # an earlier cleanup()/update() at which nothing was due, or none
+                pre = [['C', 8], ['C', 8]] if early else []
+                hs.append(mk([['U', 0, ra, 0], ['U', 4, rb, 4]] + pre + [['T', 12], ['C', 13], ['C', 13], ['U', 14, rc, None],
+                              ['T', 4], ['C', 14], ['C', 18], ['T', None], ['C', 400], ['U', 400, ra, None], ['T', 8], ['C', 407],
+                              ['C', 408]], 160))
+                hs.append(mk([['U', 0, ra, 0], ['U', 0, rb, 0]] + pre + [['T', 8], ['U', 8, rc, 8], ['T', 4], ['U', 12, rb, 12]], 40))
+            # longer: what was about to expire stays; ttl 0: everything goes at once
+            hs.append(mk([['U', 0, ra, 0], ['U', 2, rb, 2], ['C', 3], ['T', 40], ['C', 4], ['C', 39], ['C', 40], ['T', 0],
+                          ['U', 41, rc, 41], ['C', 41]], 4))
+            hs.append(mk([['U', 0, ra, 0], ['T', 12], ['C', 11], ['C', 12], ['U', 12, ra, 12], ['T', None], ['C', 99], ['T', 12],
+                          ['C', 23], ['C', 24]], None))
+            # switch to unordered (in an unordered tracker the assignment changes nothing)
+            hs.append(mk([['U', 0, ra, 8], ['U', 0, rb, 12], ['U', 0, rc, 4], ['M'], ['U', 0, rc, 4], ['U', 0, rd, 1], ['U', 0, ra, 9],
+                          ['U', 0, rb, 11], ['C', 16], ['C', 20], ['P', B], ['U', 21, rb, 2]], 12))
+            hs.append(mk([['U', 0, ra, 8], ['M'], ['U', 0, rb, 0], ['U', 0, rc, 4], ['U', 0, rd, 12], ['M'], ['U', 0, ra, 8]], None))
+            hs.append(mk([['M'], ['U', 0, ra, 8], ['U', 0, rb, 0], ['T', 4], ['C', 8], ['C', 12]], None))
+    return hs
+
+
+def directed_public(rng):
+    """The public method below update(): insert_or_update(mmsi, msg_to_track(decoded, ts)).  Unordered: any timestamps
+    (older than its own track: rejected; older than others: accepted), no expiry until the next cleanup()/update().
+    Ordered: non-decreasing timestamps only (the route has no check); an update through it moves the track to the end."""
+    hs = []
+    A, B, C = MMSIS[0], MMSIS[1], MMSIS[2]
+    for ordered in (False, True):
+        ra, rb, rc = real_message(rng, A, 1), real_message(rng, B, 5), real_message(rng, C, 18)
+        mk = lambda ops, ttl: {'cfg': {'ordered': ordered, 'ttl_q': ttl, 'base': 0}, 'ops': [list(o) for o in MON_OPS] + ops}
+        hs.append(mk([['I', 0, ra, 1], ['I', 0, rb, 2], ['I', 0, ra, 3], ['I', 0, rc, 3], ['I', 0, rb, 4], ['I', 0, ra, 4],
+                      ['U', 0, rc, 5], ['I', 0, rb, 5], ['P', A], ['I', 0, ra, 6], ['I', 0, rc, 4]], None))
+        hs.append(mk([['I', 0, ra, 0], ['I', 4, rb, 4], ['C', 11], ['I', 12, rc, 12], ['G', A], ['C', 12], ['I', 16, rb, None],
+                      ['U', 30, ra, None], ['I', 30, rc, 29 if not ordered else 30]], 12))
+        if not ordered:
+            hs.append(mk([['I', 0, ra, 8], ['I', 0, rb, 0], ['I', 0, rc, 4], ['I', 0, ra, 7], ['I', 0, ra, 8], ['I', 0, rb, 9],
+                          ['C', 20]], 12))
+    return hs
+
+
+def directed_extreme_mmsi(rng):
+    """The vessel with MMSI 0 (a falsy key) and the one with the largest MMSI: created, updated, expired next to an
+    ordinary vessel, popped by int and by numeric string."""
+    hs = []
+    Z, L, A = 0, 999999999, MMSIS[0]
+    for ordered in (False, True):
+        for real in (True, False):
+            mz = real_message(rng, Z, 1) if real else stub_message(rng, Z)
+            ml, ma = real_message(rng, L, 18), real_message(rng, A, 5)
+            mk = lambda ops, ttl: {'cfg': {'ordered': ordered, 'ttl_q': ttl, 'base': 0}, 'ops': [list(o) for o in MON_OPS] + ops}
+            hs.append(mk([['U', 0, mz, 0], ['U', 1, ml, 1], ['U', 2, mz, 2], ['U', 8, ma, 8], ['C', 13], ['C', 14], ['C', 20]], 12))
+            hs.append(mk([['U', 0, mz, 0], ['C', 12], ['U', 12, mz, 12], ['U', 24, ml, None], ['G', 0], ['U', 40, ma, None]], 12))
+            hs.append(mk([['U', 0, mz, 0], ['U', 0, ml, 0], ['G', 0], ['P', 0], ['P', 0], ['U', 1, mz, 1], ['P', '0'], ['P', L],
+                          ['U', 2, mz, 2], ['P', str(L)], ['C', 50]], None if real else 12))
+    return hs
+
+
+def directed_many(rng, sizes=(70, 130)):
+    """More tracks than any constant a scan might be limited to (70 ... 150 vessels) reach the TTL in ONE cleanup() /
+    update(), alone or with fresh tracks inserted before / after them."""
+    hs = []
+    for ordered in (False, True):
+        for n in sizes:
+            ms = [500000000 + 7 * i for i in range(n + 6)]
+            stub = lambda m, i: {'stub': {'mmsi': m, 'attrs': {}}}
+            mk = lambda ops: {'cfg': {'ordered': ordered, 'ttl_q': 12, 'base': 0}, 'ops': [list(o) for o in MON_OPS] + ops}
+            old = [['U', 2, stub(m, i), 0 if ordered else i % 3] for i, m in enumerate(ms[:n])]
+            fresh = [['U', 12, stub(m, i), 12] for i, m in enumerate(ms[n:])]
+            hs.append(mk(old + [['C', 13], ['C', 14], ['C', 15]]))                           # due at one instant / in thirds
+            hs.append(mk(old + fresh + [['C', 20], ['C', 20]]))                              # fresh tracks behind the stale ones
+            if not ordered:
+                hs.append(mk(fresh[:3] + old + fresh[3:] + [['U', 20, stub(ms[n], 0), None]]))   # found by update()
+    return hs
+
+
+def directed_reregistration(rng):
+    """A subscriber that is removed and registered again (the SAME (event, callback) pair) hears the events again."""
+    hs = []
+    A, B = MMSIS[0], MMSIS[1]
+    for ordered in (False, True):
+        ra, rb = real_message(rng, A, 1), real_message(rng, B, 5)
+        mk = lambda ops, ttl=None: {'cfg': {'ordered': ordered, 'ttl_q': ttl, 'base': 0}, 'ops': [list(o) for o in MON_OPS] + ops}
+        for ev in 'cud':
+            hs.append(mk([['A', ev, 10], ['U', 0, ra, 0], ['U', 0, ra, 1], ['D', ev, 10], ['U', 0, ra, 2], ['P', A], ['U', 0, ra, 3],
+                          ['A', ev, 10], ['U', 0, ra, 4], ['U', 0, ra, 5], ['U', 0, rb, 5], ['P', A], ['D', ev, 10], ['A', ev, 10],
+                          ['P', B], ['U', 0, rb, 6], ['U', 0, rb, 7]]))
+        hs.append(mk([['A', 'd', 10], ['A', 'd', 11], ['U', 0, ra, 0], ['D', 'd', 10], ['C', 13], ['A', 'd', 10], ['U', 13, rb, 13],
+                      ['D', 'd', 11], ['A', 'd', 11], ['C', 30]], 12))
+    return hs
+
+
 # behaviours of the enumerated histories (callback 7; vessels 111 and 222 as in enumerated_histories)
 ENUM_BEHS = [
     [[7, 'd', None, 'KeyError']],
@@ -1138,7 +1409,10 @@ ENUM_BEHS = [
 ]
 
 
-def enumerated_histories(max_len, configs=None):
+CONFIG_LETTERS = [('S', 4), ('S', 12), ('S', None), ('M',)]      # ttl := 1 s / 3 s / None, switch to unordered
+
+
+def enumerated_histories(max_len, configs=None, letters=()):
     """All histories up to max_len over 2 MMSIs x 3 timestamps (explicit or default), pop, cleanup and a clock tick;
     message classes rotate with the position.  Generator of histories."""
     A, B = 111, 222
@@ -1147,7 +1421,7 @@ def enumerated_histories(max_len, configs=None):
     classes = [lambda m: {'stub': {'mmsi': m, 'attrs': {a3[0]: 0}}} if a3 else {'stub': {'mmsi': m, 'attrs': {}}},
                lambda m: {'stub': {'mmsi': m, 'attrs': {n: 'x' for n in a3[1:]}}},
                lambda m: {'stub': {'mmsi': m, 'attrs': {a3[0]: None} if a3 else {}}}]
-    alphabet = [('U', m, ts) for m in (A, B) for ts in (0, 4, 8, None)] + [('P', A), ('P', B), ('C',), ('T',)]
+    alphabet = [('U', m, ts) for m in (A, B) for ts in (0, 4, 8, None)] + [('P', A), ('P', B), ('C',), ('T',)] + list(letters)
     configs = configs or [(o, t) for o in (False, True) for t in (None, 4)]
     for config in configs:
         ordered, ttl = config[0], config[1]
@@ -1155,6 +1429,8 @@ def enumerated_histories(max_len, configs=None):
         extra = [['A', ev, cb] for ev, cb in sorted({(r[1], r[0]) for r in beh})] if beh else []
         for ln in range(1, max_len + 1):
             for word in itertools.product(alphabet, repeat=ln):
+                if letters and not any(w in letters for w in word):
+                    continue                           # without a configuration operation: enumerated already
                 now = 4
                 ops = [list(o) for o in MON_OPS] + [list(o) for o in extra]
                 useful = False
@@ -1166,6 +1442,10 @@ def enumerated_histories(max_len, configs=None):
                         useful = True
                     elif w[0] == 'P':
                         ops.append(['P', w[1]])
+                    elif w[0] == 'S':
+                        ops.append(['T', w[1]])
+                    elif w[0] == 'M':
+                        ops.append(['M'])
                     else:
                         ops.append(['C', now])
                 if useful and word[-1][0] != 'T':
@@ -1175,9 +1455,9 @@ def enumerated_histories(max_len, configs=None):
                     yield {'cfg': cfg, 'ops': ops}
 
 
-def add_queries(h):
-    """The history with n_latest_tracks(n) for n = 0 .. 3 after its last operation (enumerated C14 states)."""
-    return {'cfg': h['cfg'], 'ops': h['ops'] + [['L', n] for n in range(0, 4)]}
+def add_queries(h, upto=4):
+    """The history with n_latest_tracks(n) for n = 0 .. upto-1 after its last operation (enumerated C14 states)."""
+    return {'cfg': h['cfg'], 'ops': h['ops'] + [['L', n] for n in range(0, upto)]}
 
 
 # ------------------------------------------------------------------------------------------------ entry points
@@ -1198,8 +1478,14 @@ def run_common(ctx, prop):
     hs = directed_histories(rng)
     if raising:
         hs += directed_raising(rng)
+    hs += directed_reregistration(rng) + directed_extreme_mmsi(rng) + directed_public(rng)
     if with_q:
         hs = [add_queries(h) for h in hs]
+    # the configuration changes during the history (new TTL, ordered -> unordered); very many tracks due at once
+    cf = directed_config(rng) + (directed_many(rng, (70, 130) if ctx.quick else (65, 66, 70, 100, 128, 150)) if prop == 'C13' or not ctx.quick else [])
+    hs += [add_queries(h, 6) for h in cf] if with_q else cf
+    for i in range(ctx.budget(80 if with_q else 120, 2000)):
+        hs.append(gen_history(rng, 'ttl' if i % 2 else 'mixed', with_queries=with_q, config=True, raising=(raising and i % 5 == 0)))
     n = ctx.budget(300 if with_q else 500, 6000)
     for i in range(n):
         kind = 'broker' if (prop == 'C15' and i % 4 == 0) or i % 10 == 0 else ('ttl' if prop == 'C13' or i % 2 else 'mixed')
@@ -1227,15 +1513,20 @@ def run_common(ctx, prop):
         ctx.rep.count('enumerated-raising', len(en))
         ctx.rep.exhaustive.append(f'all histories of length <= 3 over the same alphabet with a subscriber (callback 7) that raises: '
                                   f'{len(behs)} behaviours x both modes, ttl 1 s ({len(en)} histories)')
+    # the same alphabet + assignments to ttl_in_seconds (1 s, 3 s, None) + switch to unordered, starting with ttl 3 s
+    # (C14, quick: only trackers built ordered -- the TTL does not matter to n_latest_tracks, the switch does)
+    en = list(enumerated_histories(3, [(o, 12) for o in ((True,) if with_q and ctx.quick else (False, True))], letters=CONFIG_LETTERS))
+    if with_q:
+        en = [add_queries(h) for h in en]
+    check_histories(ctx, prop, en, sample_every=0, want_features=False)
+    ctx.rep.count('enumerated-config', len(en))
+    ctx.rep.exhaustive.append(f'all histories of length <= 3 over the same alphabet + ttl_in_seconds := 1 s / 3 s / None + '
+                              f'stream_is_ordered := False, ' + ('built ordered' if with_q and ctx.quick else 'both modes') + f', initial ttl 3 s ({len(en)} histories)')
     if not ctx.quick:
         exhaustive(ctx, prop, 5)
         if raising:
             exhaustive(ctx, prop, 4, behs=ENUM_BEHS)
-    if (ctx.broken or ctx.rep.disagreements) and ctx.rep.violations and not new_violations(ctx) and hasattr(ctx, 'escalated'):
-        # tools/check.py starts the hunt only when there is no violation at all; the hits of the recorded finding
-        # (which the unchanged code shows as well) must not keep it from looking for a failing input
-        ctx.escalated = True
-        hunt_common(ctx, prop)
+        exhaustive(ctx, prop, 4, letters=True)
 
 
 def _worker(job):
@@ -1246,7 +1537,8 @@ def _worker(job):
     ctx = types.SimpleNamespace(rep=rep, model=vlib.FastModel(), quick=False)
     hs = []
     n = 0
-    for i, h in enumerate(enumerated_histories(max_len, [cfg])):
+    letters = CONFIG_LETTERS if len(cfg) > 3 and cfg[3] else ()
+    for i, h in enumerate(enumerated_histories(max_len, [cfg[:3]], letters=letters)):
         if sum(1 for o in h['ops'] if o[0] != 'A') < max_len and max_len >= 4:
             continue                                   # shorter ones were done in the main process
         if i % nshards != shard:
@@ -1264,12 +1556,14 @@ def _worker(job):
     return {'n': n, 'violations': rep.violations[:20], 'disagreements': rep.disagreements[:5]}
 
 
-def exhaustive(ctx, prop, max_len, behs=None):
+def exhaustive(ctx, prop, max_len, behs=None, letters=False):
     """All histories of exactly max_len operations (see enumerated_histories), in parallel workers; behs: with a
-    subscriber that raises (one run per behaviour, ttl 1 s)."""
+    subscriber that raises (one run per behaviour, ttl 1 s); letters: with the configuration operations (initial ttl 3 s)."""
     import multiprocessing as mp
     nshards = 8
-    if behs:
+    if letters:
+        jobs = [(prop, max_len, (o, 12, None, True), s, nshards, ctx.seed) for o in (False, True) for s in range(nshards)]
+    elif behs:
         nshards = 2
         jobs = [(prop, max_len, (o, 4, b), s, nshards, ctx.seed) for o in (False, True) for b in behs for s in range(nshards)]
     else:
@@ -1283,29 +1577,28 @@ def exhaustive(ctx, prop, max_len, behs=None):
                 ctx.rep.violations.append(v)
             for d in res['disagreements']:
                 ctx.rep.disagreements.append(d)
-    ctx.rep.count('enumerated-raising' if behs else 'enumerated', total)
+    ctx.rep.count('enumerated-config' if letters else 'enumerated-raising' if behs else 'enumerated', total)
     ctx.rep.exhaustive.append(f'all histories of length {max_len} over the same alphabet'
+                              + (' + ttl_in_seconds := 1 s / 3 s / None + stream_is_ordered := False (initial ttl 3 s)' if letters else '')
                               + (f' with a subscriber that raises ({len(behs)} behaviours, ttl 1 s)' if behs else '')
                               + f' ({total} histories)')
-
-
-def new_violations(ctx):
-    """violations other than the recorded finding (which also occurs on the unchanged code)"""
-    return [v for v in ctx.rep.violations if 'after-callback-exception' not in (v.get('signature') or {}).get('kind', '')]
 
 
 def hunt_common(ctx, prop):
     """Something no longer checks: all histories up to length 5 over 2 MMSIs x 3 timestamps, then long random ones."""
     exhaustive(ctx, prop, 5)
-    if new_violations(ctx):
+    if ctx.rep.violations:
         return
     if prop != 'C12':
         exhaustive(ctx, prop, 4, behs=ENUM_BEHS)
-        if new_violations(ctx):
+        if ctx.rep.violations:
             return
+    exhaustive(ctx, prop, 4, letters=True)
+    if ctx.rep.violations:
+        return
     rng = ctx.rng
     hs = [gen_history(rng, 'ttl' if i % 2 else 'mixed', with_queries=prop == 'C14', n_ops=rng.choice([30, 60]),
-                      raising=(prop != 'C12' and i % 3 == 0)) for i in range(3000)]
+                      raising=(prop != 'C12' and i % 3 == 0), config=(i % 4 == 1)) for i in range(3000)]
     check_histories(ctx, prop, hs, sample_every=0)
 
 
@@ -1349,12 +1642,22 @@ _COMMON_RULE = ('histories of AISTracker operations under a controlled clock (ti
                 'IndexError, explicit pop_track, raising CREATED / UPDATED subscribers, a subscriber behind the raising one, '
                 'the raising subscriber removed), PRNG-drawn (1-3 raising subscribers, 70 % KeyError on DELETED) and every '
                 'history up to length 3 (quick: 2 behaviours) / 4 (thorough: 5 behaviours) with a raising subscriber; '
+                'histories in which the configuration changes -- assignments to tracker.ttl_in_seconds (shorter, longer, None, '
+                'with and without an earlier cleanup() that found nothing due) and tracker.stream_is_ordered = False (then older '
+                'timestamps) -- hand-aimed, PRNG-drawn and every history up to length 3 (quick) / 4 (thorough) over the alphabet '
+                'extended by ttl := 1 s / 3 s / None and the switch; 70-150 vessels reaching the TTL in one cleanup()/update() '
+                '(C13; all four in the thorough tier); a subscriber registered, removed and registered again (same pair) followed '
+                'by events; the public insert_or_update(mmsi, msg_to_track(...)) as a history operation (unordered: any timestamp; '
+                'ordered: never older than a track); vessels with MMSI 0 and 999999999; timestamps ahead of the clock; sentences '
+                'that carry an NMEA tag block (through NMEASentenceFactory) fed without a timestamp; sentinel values (heading 511, '
+                'lat 91, lon 181, course 360, speed 102.3) after real values; '
                 'a case is one history; distinct = distinct (configuration incl. behaviours, operation list)')
 RULE = {
     'C12': _COMMON_RULE + '; after every operation tracks / get_track are compared with the log specification sp_track_of',
     'C13': _COMMON_RULE + '; after every update()/cleanup() the remaining and the expired tracks are judged by sp_ttl_okb',
     'C14': _COMMON_RULE + '; n_latest_tracks(n) is queried for n = 0 .. |tracks|+1 in the reached states and judged by sp_top_nb',
-    'C15': _COMMON_RULE + '; the events of every operation are compared with sp_expected_events, the per-MMSI trace with sp_alive',
+    'C15': _COMMON_RULE + '; the events of every operation are compared with sp_expected_events, the per-MMSI trace with sp_alive; '
+           'every event must reach every subscriber registered at that moment (up to the first one that raises) and no removed one',
 }
 ASSUMPTIONS = ['callbacks do not call back into the tracker (they may raise: C13-C15 are checked with raising subscribers; C12 '
                'is stated and checked for subscribers that return normally)',
@@ -1364,7 +1667,14 @@ ASSUMPTIONS = ['callbacks do not call back into the tracker (they may raise: C13
                "implementation's DELETED deliveries (the theorems hold for every order)",
                'every callback is registered at most once per event for the oracle (double registration is exercised in '
                'the correspondence only)',
-               'the clock is read at most at one value during one operation']
+               'the clock is read at most at one value during one operation',
+               'stream_is_ordered is only ever switched from True to False (the other direction asserts an order nobody enforced and '
+               'is outside C14); ttl_in_seconds may be assigned any value at any time',
+               'the deliveries oracle of C15 stops judging a history at the first double registration of one (event, callback) pair',
+               'insert_or_update() is called on an ORDERED tracker only with timestamps that are not older than any track (the method '
+               'has no ordered-stream check: the caller\'s obligation; Props/C12.v trk_run_ok); insert_track() / update_track() are not '
+               'called directly (insert_track() does not maintain oldest_timestamp and fires CREATED for a tracked MMSI; they are the '
+               'two branches of insert_or_update())']
 TRUSTED_EXTRA = ['Prim/IntDict.v: dict insertion order, assignment to an existing key keeps its position, popitem() is LIFO; '
                  'sorted() is stable (modelled by insertion sort); iterating a set of ints visits exactly its elements, in '
                  "an order the model takes as a parameter (the check reads it off the implementation's DELETED deliveries; "
@@ -1374,13 +1684,17 @@ TRUSTED_EXTRA = ['Prim/IntDict.v: dict insertion order, assignment to an existin
                  'messages reach the model as data: for every AISTrack field (dataclasses.fields) whether the decoded message '
                  'has the attribute (attr.fields) and its value as an opaque token']
 NEEDED = {
-    'C12': {'merge': 0.05, 'rejected': 0.05, 'expiry': 0.05, 'pop:hit': 0.05, 'ts-equals-own-track': 0.05},
+    'C12': {'merge': 0.05, 'rejected': 0.05, 'expiry': 0.05, 'pop:hit': 0.05, 'ts-equals-own-track': 0.05,
+            'cfg:ttl-assigned': 0.03, 'cfg:switched-to-unordered': 0.02, 'public:insert_or_update': 0.03},
     'C13': {'expiry': 0.05, 'stale-and-fresh-mixed': 0.05, 'age==ttl': 0.05, 'age==ttl-1': 0.02, 'age==ttl+1': 0.02,
+            'cfg:ttl-shortened-with-tracks': 0.03, 'expiry:more-than-64-at-once': 0.001, 'public:insert_or_update': 0.03,
             'cb:expiry-with-keyerror-subscriber': 0.05, 'cb:several-expired-one-raises': 0.02, 'cb:exception-escaped': 0.03,
             'cb:cleanup-aborted': 0.02, 'cb:pop-with-raising-subscriber': 0.02, 'cb:created-subscriber-raises': 0.02},
     'C14': {'n==0': 0.05, 'n==len': 0.05, 'n>len': 0.05, 'n<len': 0.05, 'n_latest:ties': 0.05,
+            'cfg:older-timestamp-accepted-after-switch': 0.02, 'public:insert_or_update-ordered': 0.02,
             'cb:keyerror-swallowed': 0.05, 'cb:exception-escaped': 0.03},
     'C15': {'expiry': 0.05, 'rejected': 0.05, 'pop:hit': 0.05, 'created-and-expired-at-once': 0.02, 'broker-ops': 0.05,
+            'broker:event-after-re-registration': 0.02, 'public:insert_or_update': 0.03,
             'cb:keyerror-swallowed': 0.05, 'cb:exception-escaped': 0.03, 'cb:subscriber-loop-truncated': 0.02,
             'cb:created-subscriber-raises': 0.02, 'cb:updated-subscriber-raises': 0.02},
 }
